@@ -157,7 +157,7 @@ func c02Run(c c02Case, st *vlib.Stats) string {
 			if s.Kind == "create" {
 				flushedSomething = true // CREATE TABLE ends with a flush
 			}
-			if si == 0 && c.ImageEvery > 0 && (i+1)%c.ImageEvery == 0 && i+1 < len(seg.Stmts) {
+			if (si == 0 || Cfg.Tier == "thorough") && c.ImageEvery > 0 && (i+1)%c.ImageEvery == 0 && i+1 < len(seg.Stmts) {
 				// crash right after this statement, on a copy
 				dirty := len(eng.RS().VerifDirtyOffsets())
 				if dirty > 0 && flushedSomething {
@@ -168,7 +168,7 @@ func c02Run(c c02Case, st *vlib.Stats) string {
 					return "image copy failed: " + err.Error()
 				}
 				images++
-				e2, msg := recoverAndCompare(imgDir, m, tr, fmt.Sprintf("crash after statement %d of segment 0 (%s)", i, s))
+				e2, msg := recoverAndCompare(imgDir, m, tr, fmt.Sprintf("crash after statement %d of segment %d (%s)", i, si, s))
 				if e2 != nil {
 					e2.Crash(false)
 				}
